@@ -124,6 +124,8 @@ class Result:
         self.panic_text = oc.get("panic_text", "")
         self.guard_hits = raw.get("guard_hits") or []
         self.max_open_w = raw.get("max_open_w", 0)
+        self.max_open_r = raw.get("max_open_r", 0)
+        self.open_r_at_end = raw.get("open_r_at_end", 0)
         self.open_w_at_end = raw.get("open_w_at_end", 0)
         self.children = raw.get("children", False)
 
@@ -272,7 +274,7 @@ class Pool:
 # ------------------------------------------------------------------ spec helpers
 
 def mkspec(args, files=None, stdin=None, arrivals=None, sched=None, knobs=None, env=None, links=None, mode="sim",
-           chunk=None, faults=None, crash_op=None, snapshot=False, log_ops=False, tail=False, fd_limit=0,
+           chunk=None, faults=None, crash_op=None, snapshot=False, log_ops=False, tail=False, fd_limit=0, rfd_limit=0,
            rtseed=1, max_steps=400000, max_ticks=30000000):
     spec = {"mode": mode, "args": list(args), "env": dict(env or {}), "files": {}, "snapshot": snapshot,
             "log_ops": log_ops, "tail": tail, "rtseed": rtseed}
@@ -300,6 +302,8 @@ def mkspec(args, files=None, stdin=None, arrivals=None, sched=None, knobs=None, 
         spec["crash_op"] = crash_op
     if fd_limit:
         spec["fd_limit"] = fd_limit
+    if rfd_limit:
+        spec["rfd_limit"] = rfd_limit
     return spec
 
 
